@@ -36,6 +36,11 @@
      from_iter) into an arbitrary target kind / shape from a row- or column-major, possibly
      truncated (take) record stream; per-output errors (InconsistentHistory / Empty / Shape)
      are part of the model's outcome.
+   Wave 3: C06_runs_stay_linked + C06_rejected_streams (+ _from_iters2, _from_iters): what a
+   container operation with ANY closure does when it does not complete: panic iff the
+   element-by-element closure evaluation panics; error value = the collect rule's verdict on
+   the element-by-element stream(s) - no `supported` hypothesis; map / map_mut / from_iter /
+   from_iters::<2> / from_iters::<N>; C06_rejected_run lifts them to whole runs.
    Not in the model: Display impls; the record containers' own TensorRef / MatrixRef impls used
    as the SOURCE of a further adaptor (the views are built over copies of the elements);
    MatrixMask / MatrixMap (not MatrixMut: the assign forms do not exist for them);
@@ -99,6 +104,116 @@ Theorem C06_view_is_relabelling :
       exists x v, nth_error xs k = Some x /\ nth_error (c_data x) j = Some v /\ nth_error (c_data c) i = Some v.
 Proof. exact @select_is_relabelling. Qed.
 
+(* REJECTED STREAMS (wave 3).  C06_elementwise_equiv speaks about container runs that complete,
+   under `supported`.  What happens when a container operation does NOT complete is decided
+   without that hypothesis, for closures that may mention a record of ANOTHER WengertList
+   (SOther).  The states of the two runs stay linked (`hl`: same kind and shape, elementwise
+   the same histories) along every common program prefix ... *)
+Theorem C06_runs_stay_linked :
+  forall (R : Type) (ops : numops R) prog ct cenv eenv n m ct' cenv' et n',
+  Forall2 hl cenv eenv -> crun ops (ct, cenv) n prog = Some (m, Ok (ct', cenv')) ->
+  exists m' et' eenv', erun ops (et, eenv) n' prog = Some (m', Ok (et', eenv')) /\ Forall2 hl cenv' eenv'.
+Proof. exact @e_run_completes. Qed.
+
+(* ... and from linked states, for map / map_with_index / map_mut / map_mut_with_index (OMap) and
+   from_iter of a mapped record iterator (OFromIter) with ANY closure: the container operation
+   panics exactly when the element-by-element run of the same closure panics (a closure that
+   combines the element with a record of another list); it returns an error value exactly when
+   the element-by-element run COMPLETES and the documented collect rule (Container.c_from_iter:
+   InconsistentHistory when a later record's history differs from the first one's, else Empty,
+   else Shape) rejects the stream of records THAT run produced, with the same error value.
+   (The element-by-element run itself has no collect stage and therefore no such error: "the
+   container run errs exactly when the element-by-element run does" would be false; this is
+   the true form.  Conversely, when the element-by-element run panics the container run cannot
+   complete or err, by this theorem and C06_runs_stay_linked.)
+   The same holds for from_iters::<2> and from_iters::<N> (the two theorems after this one).
+   Not stated: the panics of the operation kinds WITHOUT closures (shape / name / length
+   mismatch: decided by kinds and shapes, which `hl` equates).  Model caveat: an operator applied
+   TO the foreign record alone (sin(other)) would be recorded on the single model tape; the
+   case language never builds that. *)
+Theorem C06_rejected_streams :
+  forall (R : Type) (ops : numops R) cenv eenv ct et o r,
+  Forall2 hl cenv eenv ->
+  (exists mu e a, o = OMap mu e a) \/ (exists tensor sh cm e a, o = OFromIter tensor sh cm e a) ->
+  cstep ops (ct, cenv) o = Some r ->
+  match r with
+  | Ok _ => True
+  | Panic => estep ops (et, eenv) o = Some Panic
+  | Err code => exists et' x, estep ops (et, eenv) o = Some (Ok (et', [x])) /\
+                  c_from_iter (e_tensor x) (e_shape x) (e_recs x) = Err code
+  end.
+Proof. exact @rejected_streams. Qed.
+
+(* from_iters::<2> with ANY two closures: the error value is the first output's verdict if that
+   is an error, else the second output's - computed by the collect rule on the two streams of
+   the element-by-element run *)
+Theorem C06_rejected_streams_from_iters2 :
+  forall (R : Type) (ops : numops R) cenv eenv ct et e1 e2 a r,
+  Forall2 hl cenv eenv ->
+  cstep ops (ct, cenv) (OFromIters2 e1 e2 a) = Some r ->
+  match r with
+  | Ok _ => True
+  | Panic => estep ops (et, eenv) (OFromIters2 e1 e2 a) = Some Panic
+  | Err code => exists et' x1 x2, estep ops (et, eenv) (OFromIters2 e1 e2 a) = Some (Ok (et', [x1; x2])) /\
+      match c_from_iter (e_tensor x1) (e_shape x1) (e_recs x1), c_from_iter (e_tensor x2) (e_shape x2) (e_recs x2) with
+      | Err e0, _ => e0 = code
+      | Ok _, Err e0 => e0 = code
+      | _, _ => False
+      end
+  end.
+Proof. exact @rejected_streams2. Qed.
+
+(* from_iters::<N> (any N, any target kind / shape, row or column major, truncated streams) with
+   ANY closures: the error value is the list of per-output verdicts (3 = this output is fine,
+   0 InconsistentHistory, 1 Empty, 2 Shape) of the collect rule on the N streams of the
+   element-by-element run, at least one of which is rejected *)
+Theorem C06_rejected_streams_from_iters :
+  forall (R : Type) (ops : numops R) cenv eenv ct et tensor sh cm take es a r,
+  Forall2 hl cenv eenv ->
+  cstep ops (ct, cenv) (OCollect tensor sh cm take es a) = Some r ->
+  match r with
+  | Ok _ => True
+  | Panic => estep ops (et, eenv) (OCollect tensor sh cm take es a) = Some Panic
+  | Err code => exists et' xs, estep ops (et, eenv) (OCollect tensor sh cm take es a) = Some (Ok (et', xs)) /\
+      code = SL (map (fun x => collect_code (c_from_iter (e_tensor x) (e_shape x) (e_recs x))) xs) /\
+      exists x, In x xs /\ forall c, c_from_iter (e_tensor x) (e_shape x) (e_recs x) <> Ok c
+  end.
+Proof. exact @rejected_streamsN. Qed.
+
+(* Run level: a container run that stops at an operation (error value or panic) has completed a
+   prefix `pre` of the program; the element-by-element run completes the same prefix, the two
+   states are linked there, and the operation that stopped the run is rejected by `cstep` with
+   the same outcome - so the three theorems above apply to it (for any closures, no
+   `supported`), in every run and not only from hand-picked linked states. *)
+Theorem C06_rejected_run :
+  forall (R : Type) (ops : numops R) prog ct cenv eenv n m r et n',
+  Forall2 hl cenv eenv -> crun ops (ct, cenv) n prog = Some (m, r) -> (forall st, r <> Ok st) ->
+  exists pre o post ct1 cenv1 m1 et1 eenv1 r1,
+    prog = pre ++ o :: post /\ m = n + length pre /\
+    crun ops (ct, cenv) n pre = Some (m, Ok (ct1, cenv1)) /\
+    erun ops (et, eenv) n' pre = Some (m1, Ok (et1, eenv1)) /\ Forall2 hl cenv1 eenv1 /\
+    cstep ops (ct1, cenv1) o = Some r1 /\
+    match r, r1 with Err a, Err b => a = b | Panic, Panic => True | _, _ => False end.
+Proof. exact @rejected_run. Qed.
+
+(* non-vacuity: a 2-element variables tensor in both runs (linked states); the with_index closure
+   "the element at the first index, a record of another list afterwards" is rejected with
+   InconsistentHistory (error value 0); "element + record of another list" panics *)
+Example C06_rejected_nonvacuous :
+  let decl := ODecl true true [(0, 2)] [3; 4]%Z in
+  exists ct cenv et eenv,
+    cstep Zops6 ([], []) decl = Some (Ok (ct, cenv)) /\ estep Zops6 ([], []) decl = Some (Ok (et, eenv)) /\
+    Forall2 hl cenv eenv /\
+    cstep Zops6 (ct, cenv) (OMap false (SFirst SX SOther) 0) = Some (Err (SZ 0%Z)) /\
+    cstep Zops6 (ct, cenv) (OMap true (SBin 0 SX SOther) 0) = Some Panic /\
+    cstep Zops6 (ct, cenv) (OCollect true [(0, 2)] false 2 [SX; SFirst SX SOther] 0) = Some (Err (SL [SZ 3; SZ 0]%Z)) /\
+    cstep Zops6 (ct, cenv) (OFromIters2 SX (SFirst SX SOther) 0) = Some (Err (SZ 0%Z)) /\
+    cstep Zops6 (ct, cenv) (OFromIters2 SX (SBin 2 SOther SX) 0) = Some Panic.
+Proof.
+  cbv zeta. do 4 eexists. split; [vm_compute; reflexivity|]. split; [vm_compute; reflexivity|].
+  split; [repeat constructor|]. repeat split; vm_compute; reflexivity.
+Qed.
+
 (* non-vacuity: a 2-element variables tensor, a constants tensor, their elementwise product
    (binary), the left-assign sum with the variables, and a unary kind; both runs complete and
    (0, 1) is an input element.  d(out[1]) / d(x[1]) = c[1] + 1 = 7 on both tapes. *)
@@ -158,3 +273,8 @@ Qed.
 Print Assumptions C06_elementwise_equiv.
 Print Assumptions C06_constant_side_inert.
 Print Assumptions C06_view_is_relabelling.
+Print Assumptions C06_runs_stay_linked.
+Print Assumptions C06_rejected_streams.
+Print Assumptions C06_rejected_streams_from_iters2.
+Print Assumptions C06_rejected_streams_from_iters.
+Print Assumptions C06_rejected_run.
